@@ -318,10 +318,14 @@ pub fn family(thorough: bool) -> Vec<(String, Vec<RuleSpec>)> {
     let pairs: Vec<(Sel, Sel)> = if thorough {
         let mut p = vec![];
         for a in [Sel::Empty, Sel::TuWe, Sel::We, Sel::Jun12, Sel::Ph, Sel::Week24, Sel::Y2024, Sel::Jul] {
-            for b in [Sel::Empty, Sel::We, Sel::Th, Sel::Jun12, Sel::Y2024Jun12, Sel::Jul, Sel::Y2025, Sel::Fr] {
+            for b in [Sel::Empty, Sel::We, Sel::Th, Sel::Jun12, Sel::Y2024Jun12, Sel::Jul] {
                 p.push((a, b));
             }
         }
+        p.push((Sel::TuWe, Sel::Y2025));
+        p.push((Sel::We, Sel::Fr));
+        p.push((Sel::Dec20ToJun12, Sel::We));
+        p.push((Sel::Empty, Sel::Jun13ToJan10));
         p
     } else {
         vec![
@@ -374,7 +378,7 @@ pub fn family(thorough: bool) -> Vec<(String, Vec<RuleSpec>)> {
 pub fn templates_stream(thorough: bool) -> Vec<Template> {
     let mut out = vec![];
     for (id, sp) in family(thorough) {
-        let windows: &[(i64, i64)] = if thorough { &[(-1, 3), (-3, 2), (0, 1)] } else { &[(-1, 3)] };
+        let windows: &[(i64, i64)] = if thorough { &[(-1, 3), (-3, 2)] } else { &[(-1, 3)] };
         for (first, nd) in windows.iter().copied() {
             let sp = sp.clone();
             let desc = format!("iter_range over [2024-06-{} + from_s, +{} days + to_s) of: {}", 12 + first, nd, describe(&sp));
@@ -387,7 +391,7 @@ pub fn templates_stream(thorough: bool) -> Vec<Template> {
 pub fn templates_point(thorough: bool) -> Vec<Template> {
     let mut out = vec![];
     for (id, sp) in family(thorough) {
-        let offs: &[i64] = if thorough { &[-1, 0, 1] } else { &[0] };
+        let offs: &[i64] = if thorough { &[0, 1] } else { &[0] };
         for off in offs.iter().copied() {
             let sp = sp.clone();
             let desc = format!("state / next_change at 2024-06-{} + t_s of: {}", 12 + off, describe(&sp));
@@ -426,7 +430,7 @@ pub fn templates_bounded(thorough: bool) -> Vec<Template> {
         let desc = format!("interval-size bound within 3 days of TimeDelta::MAX, next_change at 2024-06-12 + t_s of: {}", describe(&sp));
         out.push(Template::new("huge_bound", desc, move || huge_bound(&sp)));
     }
-    let max_days = if thorough { 21 } else { 5 };
+    let max_days = if thorough { 9 } else { 5 };
     for (id, sp) in family(thorough) {
         // quick: single rules, a full-day second rule, the three-rule fallback shapes
         if !thorough && id.starts_with("two_") {
